@@ -261,7 +261,8 @@ var stepLivenessLimit = time.Duration(envInt("VERIF_STEP_LIVENESS_SECONDS", 120)
 
 // heapGuard ends the run with a violation when the live heap passes heapLimit while some worker is inside a
 // Step it entered before the previous look. The drivers' own peak is recorded in the evidence (peak_heap_mb);
-// it stays below 2 GB in every check on the unchanged tree.
+// on the unchanged tree it stays below 0.5 GB in the quick tier and below 5 GB in the thorough tier - and the guard
+// additionally needs a worker that has been inside one Step for more than a second.
 const heapLimit = 20 << 30
 
 var heapPeak uint64
